@@ -10,7 +10,7 @@ Mon : the property statement on the real objects (independent of the Lean build)
       one consistent order, eqs == M*A+u, M*A+u == inflow - outflow + input computed from
       get_flow, mass balance, from_dict(to_dict(cs)) == cs, to_compartmental_system(eqs)
       equivalent to cs, frame of every builder operation against a name-keyed reference,
-      subs maps flows/doses/lag/F pointwise and does not depend on set iteration order.
+      subs maps flows/doses/lag/F pointwise and does not depend on PYTHONHASHSEED (fresh interpreters).
 """
 from __future__ import annotations
 
@@ -29,7 +29,7 @@ RULE = ("operation sequences on an empty CompartmentalSystemBuilder: 1-6 (quick)
         "optional bolus/infusion doses (often on several compartments), input (single terms and sums), lag time, bioavailability, sometimes an amount function not derived from the name; random flows (distinct symbols, shared symbols, "
         "rational multiples, sums of 2-3 distinct positive terms on about a third of the compartment-to-compartment flows, a few differences, the same Q or V symbol on several flows, Michaelis-Menten in the source amount and occasionally in another compartment's amount; a few self-loops), 0-3 output flows; then up to 6 (12) "
         "seeded builder operations (add/remove compartment, add/remove flow, move/set/add/remove dose, set lag/F/input, "
-        "subs with a controlled iteration order of the compartment set, to_dict/from_dict), some through stale compartment "
+        "subs (unpatched; the model relabels in node order), to_dict/from_dict), some through stale compartment "
         "references. Everything is compared after every operation. non-trivial = at least 2 compartments and 1 flow at "
         "some point; distinct = distinct case JSON")
 TRUSTED = [
@@ -42,8 +42,8 @@ TRUSTED = [
 ASSUMPTIONS = [
     "compartment names are distinct (the code sorts sets of compartments by name; with equal names its order is hash dependent)",
     "expressions are compared by exact evaluation at seeded positive rational points, amounts A_X(t) treated as free values",
-    "CompartmentalSystem.subs iterates a Python set; the harness fixes that iteration order (patching statements._comps to "
-    "return a list) and gives the same order to the model",
+    "hash independence of CompartmentalSystem.subs is probed in fresh interpreters under PYTHONHASHSEED 1, 2, 3 (system sent as "
+    "its to_dict) for every subs step in which at least two compartments change and at least one does not",
     "to_compartmental_system is checked only on systems without self-loops whose rates and inputs are sums of terms that are each positive for positive symbols",
 ]
 
@@ -785,34 +785,63 @@ def central_name(cs):
         return "none"
 
 
+SUBS_PROBE = r"""
+import json, sys
+from pharmpy.model import CompartmentalSystem
+d, mp = json.load(sys.stdin)
+cs2 = CompartmentalSystem.from_dict(d).subs(mp)
+try:
+    central = cs2.central_compartment.name
+except ValueError:
+    central = None
+print(json.dumps([cs2.compartment_names, [c.get('name', '@out') for c in cs2.to_dict()['compartments']], central]))
+"""
+
+
+def subs_in_fresh_interpreters(cs, mp, hashseeds=(1, 2, 3)):
+    """cs.subs(mp) evaluated in fresh interpreters under different PYTHONHASHSEED values (the system travels as its
+    to_dict): returns the list of [compartment_names, to_dict node order, central] answers"""
+    import json
+    import subprocess
+    import sys
+    payload = json.dumps([cs.to_dict(), mp])
+    out = []
+    for hs in hashseeds:
+        env = dict(os.environ, PYTHONHASHSEED=str(hs))
+        p = subprocess.run([sys.executable, "-c", SUBS_PROBE], input=payload, capture_output=True, text=True, env=env, timeout=300)
+        if p.returncode != 0:
+            raise RuntimeError("subs probe failed: " + p.stderr[-500:])
+        out.append(json.loads(p.stdout.strip().splitlines()[-1]))
+    return out
+
+
 def do_subs(op, sim, rng, mon, tags, step):
-    """CompartmentalSystem.subs with the iteration order of the compartment set fixed by the harness.
-    Returns the wire op, and replaces the builder by one made from the substituted system."""
+    """CompartmentalSystem.subs on the real code, unpatched.  Returns the wire op (tables rate -> substituted rate and
+    compartment -> substituted compartment, sorted by name: the ORDER of relabelling is the model's own), and replaces
+    the builder by one made from the substituted system."""
     cs = CompartmentalSystem(sim.cb)
     orng = random.Random(op[2])
     mp = subs_map(op[1], cs, orng)
     if mp is None:
         return None
     comps = [c for c in cs._g.nodes if c is not output]
-    order = list(comps)
-    orng.shuffle(order)
-    orig = stm._comps
-
-    def run(order):
-        stm._comps = lambda graph: [c for c in order if c in graph] + [c for c in graph.nodes if c is not output and c not in order]
-        try:
-            return cs.subs(mp)
-        finally:
-            stm._comps = orig
-
-    cs2 = run(order)
-    # monitor: the result must not depend on the iteration order of a set
-    cs2r = run(list(reversed(order)))
-    if cs2r.compartment_names != cs2.compartment_names:
-        mon.append({"cls": "subs-depends-on-set-order", "what": f"step {step}: cs.subs({mp}) gives compartment order "
-                    f"{cs2.compartment_names} or {cs2r.compartment_names} (central {central_name(cs2)} or "
-                    f"{central_name(cs2r)}) depending on the iteration order of the set of compartments; before: "
-                    f"{cs.compartment_names}"})
+    cs2 = cs.subs(mp)
+    changed = [c for c in comps if c.subs(mp) != c]
+    # monitor: the result must not depend on hash randomisation.  Witness class of the former defect: at least two
+    # compartments change and at least one does not (then networkx relabels in reversed mapping order and the mapping
+    # was built from a set).  Checked in fresh interpreters under three PYTHONHASHSEED values.
+    if len(changed) >= 2 and len(changed) < len(comps):
+        tags.append("subs:hashseed-probe")
+        here = [cs2.compartment_names, [getattr(c, "name", "@out") for c in cs2._g.nodes], central_name(cs2)]
+        here[2] = None if here[2] == "none" else here[2]
+        answers = subs_in_fresh_interpreters(cs, mp)
+        distinct = []
+        for a in [here] + answers:
+            if a not in distinct:
+                distinct.append(a)
+        if len(distinct) > 1:
+            mon.append({"cls": "subs-depends-on-set-order", "what": f"step {step}: cs.subs({mp}) depends on PYTHONHASHSEED: "
+                        f"[compartment_names, node order, central] is one of {distinct}; before: {cs.compartment_names}"})
     # monitor: flows, doses, lag, F mapped pointwise
     by2 = {c.name: c for c in cs2._g.nodes if c is not output}
     ok = sorted(by2) == sorted(c.name for c in comps)
@@ -839,7 +868,7 @@ def do_subs(op, sim, rng, mon, tags, step):
         pr = [ex(r), ex(r.subs(mp))]
         if pr not in rates:
             rates.append(pr)
-    mapping = [[wire_node(c), wire_node(c.subs(mp))] for c in order]
+    mapping = [[wire_node(c), wire_node(c.subs(mp))] for c in sorted(comps, key=lambda c: c.name)]
     sim.cb = CompartmentalSystemBuilder(cs2)
     tags.append("subs:some-unchanged" if any(c.subs(mp) == c for c in comps) else "subs:all-changed")
     return ["subs", rates, mapping]
